@@ -26,7 +26,7 @@ type Bounds struct {
 }
 
 var tiers = map[string]Bounds{
-	"quick":    {MaxC: 16, MaxK: 64, MaxOps: 40, MaxOut: 6, MaxG: 8, MaxM: 6, MaxSteps: 6000},
+	"quick":    {MaxC: 16, MaxK: 64, MaxOps: 120, MaxOut: 6, MaxG: 8, MaxM: 6, MaxSteps: 6000},
 	"thorough": {MaxC: 64, MaxK: 4096, MaxOps: 400, MaxOut: 16, MaxG: 64, MaxM: 10, MaxSteps: 50000},
 }
 
@@ -41,6 +41,7 @@ type runCtx struct {
 	ops        int
 	nontrivial bool
 	probes     *[numProbes]int64
+	extraTrace []string // rendered trace of a reference execution (C19)
 	tally      func(dim, val string)
 }
 
@@ -206,7 +207,7 @@ func main() {
 			d.Tape = &simrt.Tape{Program: prog.Out(), Schedule: sched.Out(), ProgramSpans: prog.Spans()}
 		}
 		if tracing {
-			d.Trace = sim.RenderTrace()
+			d.Trace = append(rc.extraTrace, sim.RenderTrace()...)
 		}
 		emit(d)
 		return viol
